@@ -41,7 +41,7 @@ def plan(tier, prop):
                 "non-trivial = at least one router operation completed; "
                 "distinct = distinct abstract event traces",
         "expected_probes": ["alloc_failed_natural", "alloc_failed_injected",
-                            "multisource_error", "shared_keymask_merge", "numpy_keys",
+                            "multisource_error", "shared_keymask_merge", "numpy_keys", "extreme_key_mask",
                             "empty_table", "big_table", "all_route_bits",
                             "clear", "readback", "op_timeout",
                             "leaf_without_route", "fragmented_start"],
@@ -303,6 +303,11 @@ class RtrEngine(object):
             else:
                 mask = [0xffffffff, 0xffff0000, 0, t.draw(1 << 32)][t.draw(4)]
                 key = t.draw(1 << 32)
+                if t.draw(6) == 0:
+                    # extremes of both words together
+                    key = [0xffffffff, 0, 0xffffffff, 0x80000000][t.draw(4)]
+                    mask = [0, 0, 0xffffffff, 0x80000000][t.draw(4)]
+                    self.w.probe("extreme_key_mask")
             entries.append(RTE(route, key, mask))
         return entries
 
